@@ -293,6 +293,8 @@ PROPS = {
              "bound": "fully consistent template module, and each of its 41 reference sites corrupted alone (42 cases)", "timeout": 600, "extra_modules": ["tokenizer"], "validate": 42},
             {"engine": "E2", "module": "lib", "harness": "h_check_this_refs", "functions": ["checker::check_axis_descr_refs", "checker::is_valid_structure_component", "checker::check_typedef_characteristic"],
              "bound": "TYPEDEF_CHARACTERISTIC with AXIS_PTS_REF THIS.ax used in 1 or 2 TYPEDEF_STRUCTUREs, each with or without the component (8 cases)", "timeout": 300, "extra_modules": ["tokenizer"]},
+            {"engine": "E2", "module": "lib", "harness": "h_check_namespaces", "functions": ["A2lFile::check", "checker::check_compu_method", "checker::check_instance", "checker::check_typedef_structure", "module::Module::compu_tabs", "module::Module::typedefs"],
+             "bound": "{COMPU_TAB_REF, STATUS_STRING_REF} x 3 table kinds and {INSTANCE type, STRUCTURE_COMPONENT type} x 5 typedef kinds, target defined / missing (32 modules)", "timeout": 300, "extra_modules": ["tokenizer"], "must_cover": ["check_namespaces_end"]},
             {"engine": "E2", "module": "lib", "harness": "h_check_conventions", "functions": ["checker::check"],
              "bound": "one module using NO_COMPU_METHOD / NO_INPUT_QUANTITY / NO_INVERSE_TRANSFORMER at every site that allows them", "timeout": 200, "extra_modules": ["tokenizer"]},
             {"engine": "E2", "module": "lib", "harness": "h_check_axis_descr_count", "functions": ["checker::check_characteristic_common", "checker::check_axis_descr"],
@@ -309,6 +311,8 @@ PROPS = {
              "bound": "16 template modules (baseline + 14 single keeping sites + a helper whose only referrer is removed); cleanup applied twice", "timeout": 400, "extra_modules": ["tokenizer"], "validate": 15},
             {"engine": "E2", "module": "lib", "harness": "h_cleanup_unit_chain", "functions": ["cleanup::compu_methods::remove_unused_sub_elements"],
              "bound": "REF_UNIT chains of length 0..=5, anchored in a used COMPU_METHOD or not, defined front-to-back or back-to-front; cleanup applied twice", "timeout": 200, "extra_modules": ["tokenizer"]},
+            {"engine": "E2", "module": "lib", "harness": "h_cleanup_group_chain", "functions": ["A2lFile::cleanup", "cleanup::groups::cleanup", "cleanup::groups::delete_empty_groups", "cleanup::groups::get_used_groups"],
+             "bound": "SUB_GROUP chains of 1..=3 GROUPs, USER_RIGHTS naming any position or none, last group with / without members (18 modules); cleanup twice", "timeout": 300, "extra_modules": ["tokenizer"], "must_cover": ["cleanup_group_chain_end"]},
         ],
     },
     "C09": {
@@ -321,6 +325,10 @@ PROPS = {
              "bound": "5 scenarios on a template module with 30+ populated reference sites: all names conflict / identical copy / disjoint names / into empty / from empty", "timeout": 600, "extra_modules": ["tokenizer"], "validate": 5},
             {"engine": "E2", "module": "lib", "harness": "h_merge_named_union", "msg_prefix": "C09", "functions": ["merge::merge_function", "merge::merge_group", "merge::merge_user_rights", "merge::merge_variant_coding", "merge::rename_objects"],
              "bound": "FUNCTION / GROUP / USER_RIGHTS / VARIANT_CODING from B referring to objects that are renamed by the merge (2 scenarios)", "timeout": 600, "extra_modules": ["tokenizer"], "validate": 2},
+            {"engine": "E2", "module": "lib", "harness": "h_merge_twin_refs", "functions": ["merge::merge_objects", "merge::calculate_item_actions", "merge::rename_objects", "merge::rename_typedef_refs"],
+             "bound": "B's element textually identical to A's but referring to a MEASUREMENT that the merge renames: TYPEDEF_AXIS twin reached through an INSTANCE (object twin AXIS_PTS: known finding D22)", "timeout": 300, "extra_modules": ["tokenizer"]},
+            {"engine": "E2", "module": "lib", "harness": "h_merge_twin_refs_known_d22", "known": "D22", "functions": ["merge::merge_objects"],
+             "bound": "the recorded scenario of known finding D22", "timeout": 200, "extra_modules": ["tokenizer"]},
         ],
     },
     "C08": {
@@ -397,7 +405,7 @@ PROPS = {
             {"engine": "E2", "module": "ifdata", "harness": "h_c19_spec2_text_roundtrip", "functions": ["<generated> WSpec::store_to_ifdata", "<generated> WSPEC_TEXT", "A2lFile::write_to_string", "load_from_string", "<generated> WSpec::load_from_ifdata"],
              "bound": "4 presets of WSpec with symbolic 8-bit scalars / string char; strict reload; load, store, write reproduces the text", "timeout": 400, "must_cover": ["c19_spec2_text_roundtrip_end"], "max_steps": 4000000},
             {"engine": "E2", "module": "ifdata", "harness": "h_c19_parsed_roundtrip", "functions": ["load_from_string", "<generated> VSpec::load_from_ifdata", "<generated> VSpec::store_to_ifdata", "A2lFile::write_to_string"],
-             "bound": "14 instance texts (decimal/hex notation, every member kind, empty and populated blocks, members out of definition order)", "timeout": 300, "must_cover": ["c19_parsed_roundtrip_end"], "max_steps": 4000000},
+             "bound": "16 instance texts (decimal/hex notation, every member kind, empty and populated blocks, members out of definition order, tags reused with other content)", "timeout": 300, "must_cover": ["c19_parsed_roundtrip_end"], "max_steps": 4000000},
             {"engine": "E2", "module": "ifdata", "harness": "h_c19_shape_mismatch", "functions": ["load_from_string", "<generated> VSpec::load_from_ifdata", "<generated> *::parse"],
              "bound": "12 mismatching in-file definitions with a conforming instance each: load_from_ifdata returns None, no panic", "timeout": 300, "must_cover": ["c19_shape_mismatch_end"], "max_steps": 4000000},
             {"engine": "E2", "module": "ifdata", "harness": "h_c19_text_constant_parses", "functions": ["a2ml::parse_a2ml", "<generated> VSPEC_TEXT"],
